@@ -19,13 +19,18 @@ TRUSTED = [
     "datetime theory D3: .replace(second=,microsecond=) on a UTC datetime acts on the UTC wall fields (floor to the minute + given fields)",
     "datetime theory D4: timedelta.microseconds == td mod 1e6 (normalised, Euclidean)",
     "datetime theory D5: int(td.total_seconds()) == td div 1s for 0 <= td <= 61 s (range side condition is a proved obligation)",
+    "datetime theory D6: for an aware x, x.astimezone(tz) depends only on the instant x denotes and on tz, and x.astimezone(pytz.UTC) is that instant in UTC; on a naive x astimezone() uses the host's local zone (unmodelled: fresh value)",
     "naive.replace(tzinfo=pytz.UTC) keeps the wall value as the UTC instant",
     "pycron.is_now(expr, dt): uninterpreted predicate of (expr, dt); may raise ValueError",
     "pytz.timezone(name): uninterpreted, may raise KeyError (UnknownTimeZoneError); dt.astimezone(tz): uninterpreted function of (dt, tz)",
     "attribute reads on ScheduledTask have no side effects",
 ]
 is_now = Function('is_now', Val, Val, BoolSort())
-astz = Function('astimezone', Val, Val, Val)
+_astz_inst = Function('astimezone_of_instant', IntSort(), Val, Val)
+_astz_naive = Function('astimezone_of_naive', Val, Val, Val)
+def astz(v, tz):
+    """x.astimezone(tz): for an aware x the result depends only on the INSTANT x denotes and on tz (not on the zone x was expressed in); naive x: host zone, unmodelled"""
+    return If(Val.aware(v), _astz_inst(Val.us(v), tz), _astz_naive(v, tz))
 pytz_timezone = Function('pytz_timezone', Val, Val)
 UTC = 'TZ:UTC'
 MINUS, MAXUS = 62135596800 * 0, 253402300799 * US      # year 1 .. 9999 relative to year 1 (only the width matters)
@@ -47,6 +52,7 @@ class Ex(Exec):
             if e.attr == 'days': return k(st, PyInt(Val.tus(base) / (86400 * US)))
             if e.attr == 'tzinfo': return k(st, If(Val.aware(base), Val.ref(Val.tz(base) + 1000), Val.none))
         if isinstance(e.value, ast.Name) and e.value.id == 'task' and isinstance(st.env.get('task'), dict):
+            if e.attr in ('schedule_id', 'task_name', 'labels', 'args', 'kwargs', 'source'): return k(st, Const('task_' + e.attr + '_opaque', Val))          # fields the statement does not mention (used for log texts): opaque, constant per task
             if e.attr not in st.env['task']: raise Unsupported("attribute of ScheduledTask outside the contract: " + p)
             return k(st, st.env['task'][e.attr])
         return super().ev_Attribute(e, st, k, K)
@@ -130,6 +136,9 @@ def h_int(ex, st, e, recv, args, kw, k, K):
         return k(st, PyInt(tus / US))
     return k(st, PyInt(ex.as_int(v)))
 def h_astimezone(ex, st, e, recv, args, kw, k, K):
+    if len(args) == 1 and args[0] is UTC or (is_expr(args[0]) and is_expr(UTC) and args[0].eq(UTC)):
+        # D6: aware.astimezone(UTC) is the same instant expressed in UTC; on a NAIVE value astimezone() assumes the host's local zone (not modelled: fresh value)
+        b = to_val(recv); return k(st, If(Val.aware(b), Val.dt(Val.us(b), BoolVal(True), IntVal(0)), fresh('astimezone_of_a_naive_value_uses_the_host_zone')))
     r = astz(to_val(recv), to_val(args[0])); st.pc.append(Val.is_dt(r)); return k(st, r)
 def h_pytz_timezone(ex, st, e, recv, args, kw, k, K):
     ok = st.fork(); k(ok, pytz_timezone(to_val(args[0])))
@@ -170,7 +179,7 @@ def generate(src):
         raise Unsupported("get_task_delay signature (extra parameter without default None): " + ast.unparse(fdef.args))
     H = {'logger.*': noop, 'datetime.now': h_now, 'isinstance': h_isinstance, 'is_now': h_is_now, 'timedelta': h_timedelta, 'to_tz_aware': h_to_tz_aware,
          'int': h_int, '*.astimezone': h_astimezone, 'pytz.timezone': h_pytz_timezone, '*.replace': h_replace, '*.total_seconds': h_total_seconds}
-    ex = Ex(H, src)
+    ex = Ex(H, src); ex.inline_scope = (src, REL, None)          # helpers of the same file without a contract are executed with their real body
     W = {'now_us': now_us, 'cron': task['cron'], 'cron_offset': task['cron_offset'], 'time': task['time']}
     off = task['cron_offset']
     SHIFT = If(And(truthy(off), Val.is_td(off)), Val.dt(now_us + Val.tus(off), BoolVal(True), IntVal(0)),
